@@ -22,8 +22,11 @@ func mustParseMSL(t *testing.T, src string) *Program {
 // parseErrMSL returns the error code of an InvalidError ("" if Parse
 // succeeds, "unsupported" for UnsupportedError).
 func parseErrMSL(src string) (string, error) {
-	_, err := Parse(MSL, src)
+	prog, err := Parse(MSL, src)
 	if err == nil {
+		if u := prog.UnsupportedFunctions(); len(u) > 0 {
+			return "unsupported", &UnsupportedError{Dialect: MSL, What: u[0]}
+		}
 		return "", nil
 	}
 	var ie *InvalidError
